@@ -39,6 +39,7 @@ type c10Op struct {
 type c10Case struct {
 	Source string  `json:"source"` // scripted triangle simpulse erroring abaco udp
 	Nchan  int     `json:"nchan"`
+	FailBy string  `json:"fail_by,omitempty"` // udp sources: why the first start fails: "" nothing is sent yet, "overlap" two channel groups sharing a channel number arrive
 	Dwell  int     `json:"dwell_ms,omitempty"` // let every run last at least this long after its first block (C17 workloads)
 	Ops    []c10Op `json:"ops"`
 }
@@ -246,6 +247,7 @@ func (e *c10Env) queue(f func(), patience time.Duration) bool {
 }
 
 func (e *c10Env) udpSender(port, first int) {
+	stop := e.udpStop
 	conn, err := net.Dial("udp", fmt.Sprintf("127.0.0.1:%d", port))
 	if err != nil {
 		return
@@ -257,7 +259,7 @@ func (e *c10Env) udpSender(port, first int) {
 	defer t.Stop()
 	for {
 		select {
-		case <-e.udpStop:
+		case <-stop:
 			return
 		case <-t.C:
 			p := packets.NewPacket(10, 1, uint32(n), first)
@@ -454,9 +456,25 @@ func c10Run(c c10Case) (v vVerdict) {
 			reconfigure(nchan) // a client configures, then starts (a finished run leaves no packet producers behind)
 		}
 		udpSilent := (c.Source == "udp" || c.Source == "udp2") && e.udpStop == nil
+		var overlapStop chan struct{}
+		if udpSilent && c.FailBy == "overlap" && st0 == Inactive && e.c.Nchan >= 2 {
+			// the hardware already sends, but two groups claim the same channel number: sampling must refuse the layout
+			overlapStop = make(chan struct{})
+			saved := e.udpStop
+			e.udpStop = overlapStop
+			go e.udpSender(e.udpPort, 0)
+			go e.udpSender(e.udpPort, e.c.Nchan-1) // the senders' groups are e.c.Nchan wide: these two share one channel number
+			time.Sleep(20 * time.Millisecond)
+			e.udpStop = saved
+		}
 		var err error
 		if bad := c10Watch("Start", func() { err = Start(e.ds, e.queued, 10, 30) }, "Start"); bad != nil {
 			return bad
+		}
+		if overlapStop != nil && err == nil {
+			close(overlapStop)
+			f := vFailf("overlap-accepted", "op %d: Start succeeded although two channel groups sharing a channel number were arriving", i)
+			return &f
 		}
 		expectFail := st0 != Inactive || inject != "" || udpSilent
 		if err == nil && expectFail && st0 != Inactive {
@@ -474,6 +492,10 @@ func c10Run(c c10Case) (v vVerdict) {
 					return &f
 				}
 				// the failed start must not leave goroutines or sockets of its own behind... (they would block the next start)
+			}
+			if overlapStop != nil {
+				close(overlapStop)
+				time.Sleep(10 * time.Millisecond)
 			}
 			if udpSilent {
 				// from now on the hardware sends data; a client reconfigures and starts again
@@ -718,6 +740,9 @@ func c10Gen(t *rapid.T) c10Case {
 			op.Stagger = append(op.Stagger, rapid.SampledFrom([]int{0, 0, 50, 500, 3000}).Draw(t, "stagger"))
 		}
 		return op
+	}
+	if c.Source == "udp" && rapid.Bool().Draw(t, "overlapfail") {
+		c.FailBy = "overlap"
 	}
 	nrounds := rapid.IntRange(1, 3).Draw(t, "rounds")
 	if c.Source == "abaco" || c.Source == "udp" || c.Source == "udp2" || c.Source == "lancero" {
